@@ -248,6 +248,12 @@ def sharedRep (sh : Shared) : Expr → Bool
 def binParen (o : BinOp) (paren : Bool) (prev : Option BinOp) : Bool :=
   o.padded && paren && (!o.omitSame || prev != some o)
 
+/-- a count whose own type was overwritten with the integer type `Type_Repeat` is printed with "%d" from `u.integer` -/
+def countFrag : Expr → Frag
+  | .lit (.int n) => W (toString n)
+  | .lit .infinity => W "?"
+  | _ => W "0"
+
 mutual
 /-- `EXPR__out( e, paren, previous_op )` -/
 def exprFrags (sh : Shared) : Expr → Bool → Option BinOp → List Frag
@@ -286,10 +292,7 @@ def itemFrags (sh : Shared) : Expr → Bool → List Frag
     (if first then [] else [R (if sharedRep sh e then " : " else ", ")]) ++ exprFrags sh e false none ++ [R " : "]
       ++ (if ExpPrec.repeatOverwritesCountType then
             -- the count's own type was overwritten with the integer type `Type_Repeat`: it is printed with "%d" from `u.integer`
-            [match c with
-             | .lit (.int n) => W (toString n)
-             | .lit .infinity => W "?"
-             | _ => W "0"]
+            [countFrag c]
           else exprFrags sh c false none)
       ++ itemFrags sh t false
   | _, _ => []
